@@ -72,8 +72,8 @@ def seq_slice(prop, tier, seed, report, budget_scale=1.0, label="slice"):
         cfg = cfg_for(i, rng)
         contents = oracle.Contents()
         u = prop.universe(rng, contents, cfg["store_alg"])
-        if i == 0:
-            pats = u.lifecycle_patterns()
+        if i < 12:
+            pats = u.lifecycle_patterns()       # scripted on this history's own universe
         if i < len(pats):
             history = pats[i] + prop.history(u, max(2, length // 3))
         else:
